@@ -101,3 +101,23 @@ Fixpoint cev_hist (w : cworld) (evs : list event) : list N :=
   | [] => []
   | e :: r => let '(w', res) := cev w e in framed (enc_result res) ++ framed (enc_cworld w') ++ cev_hist w' r
   end.
+
+(* for the C10 check: after the first clone event, for every later call and every tree of the world, whether the call's
+   updates avoid that tree (the guard of C10_independent) *)
+From Delb.Tree Require Import AGuard.
+Definition comp_roots (w : world) : list itree := map doc_root (docs w) ++ loose w.
+Definition is_clone_ev (e : event) : bool := match e with EvOp _ _ => false | _ => true end.
+Fixpoint avoid_report (seen : bool) (w : cworld) (evs : list event) : list N :=
+  match evs with
+  | [] => []
+  | e :: r =>
+      framed (match e with
+              | EvOp F o =>
+                  if seen
+                  then flat_map (fun t => [iid t; if run_avoids t (script F o) (abs_world w) then 1%N else 0%N])
+                                (comp_roots (abs_world w))
+                  else []
+              | _ => []
+              end)
+      ++ avoid_report (seen || is_clone_ev e) (fst (cev w e)) r
+  end.
